@@ -36,3 +36,37 @@ def listSum (l : List α) : α := l.foldl (· + ·) 0.0
 
 /-- `ParticleBeam.total_charge = sum(particle_charges * survival_probabilities)` -/
 def PBeam.totalCharge (b : PBeam α) : α := listSum (List.zipWith (· * ·) b.charges b.survival)
+
+/-! ## sample moments of a particle set (all particles surviving) -/
+
+/-- sample mean of the particle vectors -/
+def PBeam.mean (b : PBeam α) : Vec7 α :=
+  Vec7.smul (1.0 / ofNat b.particles.length) (Vec7.sum b.particles)
+
+/-- unbiased sample covariance of the particle vectors -/
+def PBeam.cov (b : PBeam α) : Mat7 α :=
+  let μ := b.mean
+  Mat7.smul (1.0 / (ofNat b.particles.length - 1.0))
+    (Mat7.sum (b.particles.map fun p => Vec7.outer (Vec7.sub p μ) (Vec7.sub p μ)))
+
+/-- the `ParameterBeam` carrying the sample moments of a `ParticleBeam` -/
+def PBeam.toMBeam (b : PBeam α) : MBeam α :=
+  { mu := b.mean, cov := b.cov, energy := b.energy, charge := b.totalCharge }
+
+/-! ## survival-weighted statistics (`statistics.py`, `ParticleBeam.mu_*`, `sigma_*`, `sigma_xpx`) -/
+
+/-- `sum(x * w) / sum(w)` -/
+def wmean (x w : List α) : α := listSum (List.zipWith (· * ·) x w) / listSum w
+
+/-- `unbiased_weighted_covariance(x, y, w)` -/
+def wcov (x y w : List α) : α :=
+  let mx := wmean x w
+  let my := wmean y w
+  let corr := listSum w - listSum (w.map fun a => a * a) / listSum w
+  listSum (List.zipWith (· * ·) (List.zipWith (fun wi xi => wi * (xi - mx)) w x) (y.map fun yi => yi - my)) / corr
+
+/-- `unbiased_weighted_variance(x, w)` -/
+def wvar (x w : List α) : α :=
+  let m := wmean x w
+  let corr := listSum w - listSum (w.map fun a => a * a) / listSum w
+  listSum (List.zipWith (fun wi xi => wi * ((xi - m) * (xi - m))) w x) / corr
